@@ -27,6 +27,6 @@ For each change i (1, 2, ...) write into {wt}/out/:
   change<i>.diff    - `git -C {wt}/repo diff` of that change ALONE relative to HEAD (reset the tree between changes with `git -C {wt}/repo checkout -- .`)
   demo<i>.py        - a small standalone program (run as `/venv/bin/python demo<i>.py <path-to-repo-root>`; it must put that path first on sys.path and use only the repo and the standard library) that exits 0 on the unmodified repository and exits 1 (printing what went wrong) when the change is applied. It must demonstrate a violation of the PROPERTY as stated, through public behaviour, not merely detect that the source text changed. Note: `import pox.core` leaves `pox.core.core` as None unless 'unittest' is already imported or you call `pox.core.initialize(...)`; logging noise can be silenced with the logging module.
   meta<i>.json      - {{"property": "{pid}", "summary": "...", "needs_to_manifest": "...", "files": [...], "why_tests_still_pass": "..."}}
-Verify each change yourself: tests still pass with it (same 46), demo exits 1 with it and 0 without it (run the demo against a clean checkout, e.g. after `git checkout -- .`). Prefer changes in different functions/mechanisms from each other, and subtle ones over blatant ones.
+Never use `git stash` (stashes are shared between worktrees and other people work in sibling worktrees): save with `git diff > file`, reset with `git checkout -- .`, re-apply with `git apply file`. Verify each change yourself: tests still pass with it (same 46), demo exits 1 with it and 0 without it (run the demo against a clean checkout, e.g. after `git checkout -- .`). Prefer changes in different functions/mechanisms from each other, and subtle ones over blatant ones.
 When done, remove the worktree but keep the out directory: `git -C /repo worktree remove --force {wt}/repo`.
 Final message: list the changes with one line each and confirm the verification you performed. Do not commit anything anywhere, and never modify /repo itself.""")
